@@ -31,7 +31,7 @@ Section ListIo.
   Proof.
     intros W.
     destruct s as [sbool scode sexec sfloat sindex sint sname sbvec sfvec sivec sinput soutput sgraph sbind scfg squote ssend].
-    destruct W as [Wint Wivec Windex Wcode Wexec Wbind Winput Woutput Wgraphs]. st_cbn_all.
+    destruct W as [Wint Wivec Windex Wcode Wexec Wbind Winput Woutput Wgraphs Wcfg]. st_cbn_all.
     unfold take_id. unf_state.
     repeat match goal with |- context [if ?c then _ else _] => destruct c end;
       try discriminate;
